@@ -193,3 +193,17 @@ def canary_region():
 
 
 R.canaries.append(("haplotag.py:canary#region-pass-tags-nothing", canary_region))
+
+
+def CROSSCHECK():
+    from vcgen.crosscheck import Case
+    from types import SimpleNamespace
+
+    def gen(rng):
+        return dict(alignment=dict(__class__="Alignment", is_unmapped=rng.random() < 0.3, is_secondary=rng.random() < 0.3, is_supplementary=rng.random() < 0.4), tag_supplementary=rng.random() < 0.5)
+
+    def real(inp):
+        from whatshap.cli.haplotag import ignore_read
+        a = inp["alignment"]
+        return ("ok", bool(ignore_read(SimpleNamespace(is_unmapped=a["is_unmapped"], is_secondary=a["is_secondary"], is_supplementary=a["is_supplementary"]), inp["tag_supplementary"])), {})
+    return [Case("ignore_read", gen, real, n=64, compare=lambda e, g: g[0] == "ok" and g[1] == e[1])]
